@@ -873,6 +873,15 @@ def all_variants() -> List[V]:
 
 
 def run(prop: str, seed: int, root: str, coverage_out: dict, jobs: int = 16, only: Optional[str] = None) -> int:
+    # the canonical forms of A-NORM are validated first: a form that identifies different programs, or no longer fires,
+    # invalidates every verdict below
+    from sa.norm_examples import CASES as _norm_cases, run as _norm_run
+
+    _nb = _norm_run()
+    if _nb:
+        for x in _nb:
+            print(f"ANALYSIS-ERROR self-test property={prop} canonical-form example failed: {x}")
+        return 2
     vs = [v for v in all_variants() if prop in v.props and (only is None or v.vid == only)]
     rnd = random.Random(seed)
     rnd.shuffle(vs)
@@ -900,6 +909,7 @@ def run(prop: str, seed: int, root: str, coverage_out: dict, jobs: int = 16, onl
     coverage_out.update(
         {
             "selftest_variants": len(results),
+            "canonical_form_examples": len(_norm_cases),
             "selftest_tally": tally,
             "selftest_samples": [
                 {"variant": vid, "verdict": verdict, "detail": detail[:160]} for vid, _, verdict, detail in results[:25]
